@@ -372,8 +372,12 @@ func genSeqPlan(prop string, seed uint64, tier string) *Plan {
 	case "C02", "C03", "C13", "C18", "C06", "C08":
 		w.merge = 2
 	}
-	weights := []int{w.set, w.del, w.incr, w.get, w.mget, w.meta, w.meta2, w.flush, w.tick, w.dump, w.advance, w.restart, w.gc, w.listing, w.merge}
-	kinds := []string{"set", "del", "incr", "get", "mget", "meta", "meta2", "flush", "tick", "dump", "advance", "restart", "gc", "list", "merge"}
+	reroute := 0
+	if prop == "C15" && c.NumBucket > 1 {
+		reroute = 3
+	}
+	weights := []int{w.set, w.del, w.incr, w.get, w.mget, w.meta, w.meta2, w.flush, w.tick, w.dump, w.advance, w.restart, w.gc, w.listing, w.merge, reroute}
+	kinds := []string{"set", "del", "incr", "get", "mget", "meta", "meta2", "flush", "tick", "dump", "advance", "restart", "gc", "list", "merge", "reroute"}
 	curRoute := append([]int(nil), c.Served...)
 	idBase := 0
 	if bulk > 0 {
@@ -492,6 +496,24 @@ func genSeqPlan(prop string, seed uint64, tier string) *Plan {
 				// spread record timestamps over the uint32 range
 				op.D = r.Pick64(1000, 86400*1000, 86400*1000*365, 86400*1000*365*5, 86400*1000*365*20)
 			}
+		case "reroute":
+			// a route change on the running process: drop a served bucket, add the bucket of a key, or both
+			cur := append([]int(nil), curRoute...)
+			if r.Bool(1, 2) && len(cur) > 0 {
+				i := r.Intn(len(cur))
+				cur = append(cur[:i], cur[i+1:]...)
+			}
+			if r.Bool(2, 3) {
+				cur = addBucket(cur, bucketOf(c, p.Keys[r.Intn(len(p.Keys))]))
+			}
+			if len(cur) > 4 {
+				cur = cur[:4]
+			}
+			op.Route = cur
+			if op.Route == nil {
+				op.Route = []int{}
+			}
+			curRoute = cur
 		case "restart":
 			if restarts >= 5 {
 				op.Kind = "get"
